@@ -4,6 +4,7 @@ import (
 	"fmt"
 	"os"
 	"reflect"
+	"regexp"
 	"strings"
 
 	"github.com/evanw/esbuild/internal/ast"
@@ -263,6 +264,8 @@ func (d *crDumper) rules(rules []css_ast.Rule) {
 			d.rules(r.Rules)
 		case *css_ast.RAtKeyframes:
 			d.out = append(d.out, "F", crEnc(d.anyStr(r)))
+		case *css_ast.RBadDeclaration:
+			d.out = append(d.out, "B", crEnc(d.toks(r.Tokens)))
 		case *css_ast.RComment:
 			d.out = append(d.out, "C", crEnc(r.Text))
 		case *css_ast.RAtImport:
@@ -298,11 +301,11 @@ var crCommonSel = []string{".a", ".b", "div", "a", "#i", ".a.b", ".c", "span", "
 var crOddSel = []string{":is(.a,.b)", ".a:-x-foo", "a|b", "c|b", "*|b", "|b", ".a:focus", ".b::selection", ".a>.b", ".a .b", ":is()",
 	":where()", ".a:is()", "div:where()", "[x=y]", "[x=y i]", "my-el", "*", ".a:hover()", ".a:not(.b)", ":nth-child(3)", "font", "p", "h1",
 	"a:link", "a:visited", ".A", "DIV", "a:first-child", "a::marker", ".a+.b", "#i.a", "[x]", "a:lang(en)", ".a:is(.b)"}
-var crDecls = []string{"color:red", "color:#00f", "color:red!important", "width:1px", "--x:y", "color:#00f!important", "top:1px", "--x: y", "COLOR:red", "width:1PX"}
+var crDecls = []string{"color:red", "color:#00f", "color:red!important", "width:1px", "--x:y", "color:#00f!important", "top:1px", "--x: y", "COLOR:red", "width:1PX", "color red"}
 var crMediaQ = []string{"screen", "(min-width:1px)", "(min-width:2px)", "print", "screen and (min-width:1px)", "not print", "(min-width:1px) , print", "(width>=1px)", "(MIN-WIDTH:1px)"}
 var crSupportsQ = []string{"(display:grid)", "(display:flex)", "not (display:grid)", "(display: grid)"}
 var crLayerNames = []string{"a", "b", "a.b", "c", "b.a"}
-var crNested = []string{".x{color:red}", ".x{width:1px}", "@media screen{color:red}", "@media (min-width:1px){color:red}", ".x{}", "@layer a{color:red}", ".x,.x{color:red}"}
+var crNested = []string{".x{color:red}", ".x{width:1px}", "@media screen{color:red}", "@media (min-width:1px){color:red}", ".x{}", "@layer a{color:red}", ".x,.x{color:red}", "@layer x{}", "@layer b;"}
 var crGarbage = []string{"}", "{", ";", ".a{color:red", "a{b{c}", "@media{", "@layer a", "color:red;", ".a{color:red;}}", "@", ".a{;;}", "<!--", "-->", ".a,{color:red}",
 	"@layer a,;", ".a{color:red}}.b{color:red}", "@charset \"x\";", "@namespace a \"x\";", "@media screen;", ":is(){}", "{}"}
 
@@ -354,7 +357,42 @@ func (g *crGen) body() string {
 	return strings.Join(parts, ";")
 }
 
+// targeted: the shapes of the three repaired defects (merge of parents of nested rules, `:x` vs `:x()`, dead rule with
+// nested rules), next to their harmless variants
+func (g *crGen) targeted() string {
+	switch g.r.Intn(6) {
+	case 0, 1: // adjacent safe rules with the same body that contains a nested rule / only plain rules
+		body := g.r.Pick(crNested)
+		if g.r.Chance(1, 3) {
+			body = g.r.Pick(crDecls) + ";" + body
+		}
+		if g.r.Chance(1, 4) {
+			body = g.r.Pick([]string{"color red", "/*! c */color:red", "color:red;color red"})
+		}
+		sep := g.r.Pick([]string{"", " ", "/*! c */"})
+		return g.r.Pick(crCommonSel) + "{" + body + "}" + sep + g.r.Pick(crCommonSel) + "{" + body + "}"
+	case 2, 3: // the same rule with `:x` and with `:x()`, in both orders, adjacent or not
+		body := g.r.Pick(crDecls[:5])
+		a, b := ".a:hover", ".a:hover()"
+		if g.r.Chance(1, 3) {
+			a, b = "a:link", "a:link()"
+		}
+		if g.r.Bool() {
+			a, b = b, a
+		}
+		mid := g.r.Pick([]string{"", "", ".b{color:#00f}", "/*! c */"})
+		return a + "{" + body + "}" + mid + b + "{" + body + "}"
+	default: // rules whose selectors are all dead, with and without nested rules
+		sel := g.r.Pick([]string{":is()", ":where()", ":is(),.a:is()", "div:where()"})
+		body := g.r.Pick([]string{"@layer x{}", "@layer a{color:red}", ".x{color:red}", "color:red", "color:red;color red", "/*! c */color:red", "@media screen{color:red}", "@layer b;"})
+		return sel + "{" + body + "}"
+	}
+}
+
 func (g *crGen) misc(top bool, first bool) string {
+	if g.r.Chance(1, 4) {
+		return g.targeted()
+	}
 	switch g.r.Intn(16) {
 	case 0:
 		return "@layer " + g.r.Pick(crLayerNames) + ";"
@@ -612,6 +650,9 @@ func init() {
 
 // ---- which branches of the model does the (unmangled) input exercise? -----------------------------------
 
+// a pseudo-class with an empty argument dump: ` p 'name <hasArgs> ' <isElement>`
+var crArgsFlagRe = regexp.MustCompile(`( p '[^ ]+) [01] '`)
+
 type crShape struct {
 	e       *emitter
 	hit     map[string]bool
@@ -649,6 +690,19 @@ func (s *crShape) walk(tree *css_ast.AST, rules []css_ast.Rule, enc []string, to
 			s.mark("in:identical_layer_rules(never_equal)")
 		}
 		seen[d]++
+	}
+	norm := map[string]map[string]bool{}
+	for d := range seen {
+		n := crArgsFlagRe.ReplaceAllString(d, "$1 X '")
+		if norm[n] == nil {
+			norm[n] = map[string]bool{}
+		}
+		norm[n][d] = true
+	}
+	for _, ds := range norm {
+		if len(ds) > 1 {
+			s.mark("in:rules_equal_except_:x_vs_:x()(both_kept)")
+		}
 	}
 	if top {
 		for d := range seen {
@@ -688,11 +742,35 @@ func (s *crShape) walk(tree *css_ast.AST, rules []css_ast.Rule, enc []string, to
 					dead = false
 				}
 			}
+			nestedInside := false
+			for _, inner := range r.Rules {
+				switch inner.Data.(type) {
+				case *css_ast.RDeclaration, *css_ast.RBadDeclaration, *css_ast.RComment:
+				default:
+					nestedInside = true
+				}
+				if _, ok := inner.Data.(*css_ast.RBadDeclaration); ok {
+					s.mark("in:bad_declaration_in_style_rule")
+				}
+			}
 			if dead {
 				s.mark("in:rule_with_only_dead_selectors")
+				if nestedInside {
+					s.mark("in:dead_rule_with_nested_rules(kept)")
+					for _, inner := range r.Rules {
+						if _, ok := inner.Data.(*css_ast.RAtLayer); ok {
+							s.mark("in:dead_rule_with_nested_layer(kept)")
+						}
+					}
+				} else if len(r.Rules) > 0 {
+					s.mark("in:dead_rule_without_nested_rules(dropped)")
+				}
 			}
 			if p, ok := prev.(*css_ast.RSelector); ok && len(r.Rules) > 0 && crDump(tree, p.Rules) == crDump(tree, r.Rules) {
 				s.mark("in:adjacent_equal_bodies")
+				if nestedInside {
+					s.mark("in:adjacent_equal_bodies_with_nested_rules(not_merged)")
+				}
 				if commentSincePrev {
 					s.mark("in:adjacent_equal_bodies_across_comment")
 				}
